@@ -75,6 +75,29 @@ def run(ctx):
                         "the key of %s is `tree.to_string()`: Display omits the alias of `self` / `super` / `crate` segments (and the "
                         "visibility and attributes), so `use std::fmt::{self as f}` and `use std::fmt::{self as g}` share a key and one "
                         "of them is dropped as a duplicate" % short(c.name), [c.loc()])
+    # (4) nor may *which trees are kept* be decided on the rendered text: `list.retain(|t| !t.to_string().contains("{}"))` also
+    # drops every tree that merely has an empty list somewhere below it
+    SELECT = ("retain", "retain_mut", "filter", "filter_map", "dedup_by", "dedup_by_key", "extract_if", "drain_filter", "skip_while",
+              "take_while", "partition", "position", "find")
+    for c in p.all_calls("rustfmt_nightly"):
+        if "imports::" not in c.fn.id and "reorder::" not in c.fn.id:
+            continue
+        if c.name.rsplit("::", 1)[-1] not in SELECT:
+            continue
+        for cid in c.refs:
+            h = p.fns.get(cid)
+            if h is None or h.kind != "Closure":
+                continue
+            rendered = [x for x in h.calls() if (x.name.endswith("ToString>::to_string") or (x.declared or "").endswith("ToString::to_string")
+                                               or (x.declared or "").endswith("fmt::Display::fmt"))
+                        and any("imports::UseTree" in g for g in x.ga)]
+            if rendered:
+                n += 1
+                r.instance(A, c.key(), "violation", c.loc(), "selection predicate renders the tree")
+                r.violation(A, "%s selects use trees by their rendered text" % short(c.fn.root or c.fn.id),
+                            "the predicate handed to %s calls `tree.to_string()`: a textual test cannot tell what a tree imports "
+                            "(`contains(\"{}\")` is true of every tree with an empty list anywhere below it), so real imports are "
+                            "dropped with it" % short(c.name).rsplit("::", 1)[-1], [c.loc()])
     r.rules[A]["floor"] = 0
 
     B = r.rule("R10-b", "normalize_use_trees_with_granularity: the test contains_comment ∨ attrs.is_some() dominates flatten / "
